@@ -1,6 +1,6 @@
 (* C13 — property theorems only.  Statements are pinned in Pins_C13.v (compiled on every run). *)
 From Coq Require Import List String Bool Arith.
-From SV Require Import c13.Model_C13 c13.Proofs_C13 c13.Proofs2_C13 c13.Proofs3_C13 c13.Proofs4_C13.
+From SV Require Import c13.Model_C13 c13.Proofs_C13 c13.Proofs2_C13 c13.Proofs3_C13 c13.Proofs4_C13 c13.Proofs5_C13.
 Import ListNotations.
 Open Scope string_scope.
 
@@ -89,6 +89,29 @@ Proof. exact inst_fuel_top. Qed.
 Theorem C13_no_shared_spelling : forall e,
   (forall v b, In v (ids e) -> In b (ids e) -> fst v = fst b -> snd v = snd b) -> known_class e = false.
 Proof. exact no_shared_spelling_l. Qed.
+
+(* End to end for one macro use at top level (SteelMacro::expand = match_case + collect_bindings +
+   ReplaceExpressions on the stamped, ##-renamed template): if the use satisfies the decidable condition safe_use
+   - written by the user, and none of its non-keyword spellings occurs in a template of the macro (neither as a
+   free identifier nor as a ##-renamed one) - then the expansion is outside the known class and every identifier
+   occurrence resolves exactly as under the hygienic reading.  Proof: every identifier of the output comes from
+   the stamped template (origin i) or from the arguments (origin 0) - inst_ids, collect_ids - so no non-keyword
+   spelling is shared between two origins (no_shared_spelling_nt). *)
+Theorem C13_expand_use_hygienic : forall globals m i args imp out,
+  safe_use m i args = true ->
+  expand_use globals m [] i args imp = Ok out ->
+  known_class out = false /\ resolution_engine out = resolution_hygienic out.
+Proof. exact expand_use_hygienic_full. Qed.
+
+(* non-vacuity: (m2 p 5) is a safe use and expands; (uses-list list) is not safe (it mentions the template's
+   free identifier), (m2 t 5) is safe although m2 binds t (the binder is spelled ##t in the template) *)
+Example C13_safe_use_nonvacuous :
+  safe_use W_m2 1 [Id "p" 0; Lit "5"] = true /\
+  (exists out, expand_use ["list"] W_m2 [] 1 [Id "p" 0; Lit "5"] false = Ok out /\
+               show out = "(let ((##t 2)) (list p 5 ##t))" /\ known_class out = false) /\
+  safe_use W_m2 1 [Id "t" 0; Lit "5"] = true /\
+  safe_use W_ul 1 [Id "list" 0] = false.
+Proof. vm_compute. split; [reflexivity|]. split; [eexists; repeat split|]. split; reflexivity. Qed.
 
 (* F7, first witness: nested macros introducing the same spelling; replayed on the engine by checks/c13.py *)
 Theorem C13_hygiene_refuted :
